@@ -85,12 +85,9 @@ pub fn parse<'a>(scanner: &mut Scanner<'a>) -> ParseResult<SmallMap<&'a str, Vec
         while let Some(p) = read_path(scanner)? {
             deps.push(p);
         }
-        // A target may be named more than once; keep all of its dependencies.
-        if let Some(entry) = result.iter_mut().find(|entry| entry.0 == target) {
-            entry.1.extend(deps);
-        } else {
-            result.insert(target, deps);
-        }
+        // A target may be named more than once; keep every entry (in order)
+        // rather than replacing the earlier one.
+        result.push(target, deps);
     }
     scanner.expect('\0')?;
 
